@@ -74,7 +74,11 @@ fn describe_block(bytes: &[u8]) -> String {
         let key = u64::from_le_bytes(bytes[off + hl + vl..off + hl + vl + 8].try_into().unwrap());
         let (vk, ver) = crate::hyb::parse_value(&bytes[off + hl + 8..off + hl + vl]);
         let intact = crate::hyb::value_intact(&bytes[off + hl + 8..off + hl + vl]);
-        items.push(format!("E:{off}:{}.{}.{key}.{}.{}", h.hash, h.sequence, if vk == key && intact { ver } else { u64::MAX }, hl + kl + vl));
+        // a header whose compression tag no longer says "none" passes the checksum (which covers the stored bytes
+        // only) and then fails to decompress: `load` answers with an error (allowed by C03), the index keeps the entry
+        let undecodable = !matches!(h.compression, foyer_storage::Compression::None);
+        let shown = if undecodable { u64::MAX - 1 } else if vk == key && intact { ver } else { u64::MAX };
+        items.push(format!("E:{off}:{}.{}.{key}.{}.{}", h.hash, h.sequence, shown, hl + kl + vl));
     }
     if items.is_empty() { "-".to_string() } else { items.join(";") }
 }
